@@ -89,10 +89,12 @@ type sim struct {
 	owner    string         // server-side owner of the manager lock, tracked from the primitive log
 	lastOwned map[string]int64
 	actsLog  []simAct
+	callLog  []string // C07 dry run: the external calls of the managing daemon while the request runs
 	calls  map[string]int  // external calls per mysync since the request started (C07)
 	crashed string
 	crashedAt int64
 	crashCall string
+	crashState string
 	mu     sync.Mutex
 }
 
@@ -545,7 +547,7 @@ var simChaos = []string{"ghost_master", "active_ghost", "active_empty", "remove_
 
 // ---- one run --------------------------------------------------------------------------------------
 
-func simRun(t *testing.T, out *verifh.Out, cfg simCfg, idx int) int {
+func simRun(t *testing.T, out *verifh.Out, cfg simCfg, idx int) []string {
 	dir, err := os.MkdirTemp(os.Getenv("VERIF_TMP"), "sim")
 	if err != nil {
 		t.Fatal(err)
@@ -620,6 +622,7 @@ func simRun(t *testing.T, out *verifh.Out, cfg simCfg, idx int) int {
 			if s.simCall(by, "sql:"+host+":"+op) {
 				s.W.Mu.Lock()
 				s.W.DeadProcs[by] = true
+				s.crashState = s.crashStateLocked()
 				s.W.Mu.Unlock()
 				go s.kill(by)
 			}
@@ -645,6 +648,7 @@ func simRun(t *testing.T, out *verifh.Out, cfg simCfg, idx int) int {
 			}
 			if op != "acquire" && s.simCall(by, "dcs:"+op+":"+path) {
 				s.W.DeadProcs[by] = true
+				s.crashState = s.crashStateLocked()
 				if p := s.procs[by]; p != nil {
 					p.d.Connected = false
 				}
@@ -738,7 +742,7 @@ func simRun(t *testing.T, out *verifh.Out, cfg simCfg, idx int) int {
 		line = map[string]any{"k": "simrun", "idx": idx, "cfg": cfg, "hosts": s.hosts, "all": s.all, "warm_ok": warmOK, "warm_why": warmWhy,
 			"canonical": canon, "why": why, "master_key": mk, "final": digest, "acked": nAcked, "acked_set": ackedSet, "lost": lost,
 			"samples": s.compress(), "keys": keys, "recovery": rec, "panics": panics, "foreign_acts": acts,
-			"crashed": s.crashed, "crash_call": s.crashCall, "request_calls": s.requestCalls(), "conns": conns, "env": s.envLog()}
+			"crashed": s.crashed, "crash_call": s.crashCall, "crash_state": s.crashState, "request_calls": s.requestCalls(), "call_log": s.callLog, "conns": conns, "env": s.envLog()}
 	})
 	time.Sleep(20 * time.Millisecond)
 	line["goroutines_before"] = g0
@@ -746,7 +750,24 @@ func simRun(t *testing.T, out *verifh.Out, cfg simCfg, idx int) int {
 	if cfg.CrashAfter >= 0 {
 		out.Line(line)
 	}
-	return line["request_calls"].(int)
+	cl, _ := line["call_log"].([]string)
+	return cl
+}
+
+// crashStateLocked describes the world at the moment the manager dies (world lock held): is there a writable HA node
+// that is not the recorded master (promoted, not yet recorded)?
+func (s *sim) crashStateLocked() string {
+	var mk string
+	if d, ok := s.Tree.Data[pathMasterNode]; ok {
+		_ = json.Unmarshal(d, &mk)
+	}
+	for _, h := range s.hosts {
+		n := s.W.Nodes[h]
+		if n.Alive && !n.ReadOnly && !n.SuperReadOnly && h != mk {
+			return "promoted-node-not-yet-recorded"
+		}
+	}
+	return "other"
 }
 
 // noteOwner: s.mu held
@@ -797,6 +818,9 @@ func (s *sim) simCall(by, what string) bool {
 		s.calls["!done"] = 1 // the request reached a terminal record: the procedure is over
 	}
 	s.calls[by]++
+	if s.cfg.CrashAfter < 0 {
+		s.callLog = append(s.callLog, what)
+	}
 	if s.calls[by] == s.cfg.CrashAfter {
 		s.crashed, s.crashCall, s.crashedAt = by, what, time.Now().UnixNano()
 		return true
@@ -929,7 +953,7 @@ func TestVerifC07(t *testing.T) {
 	}
 	bases := []base{{2, "request", "to:h2"}, {3, "request", "to:h2"}, {3, "request", "from:h1"}, {4, "request", "to:h3"},
 		{3, "crash_mysql", ""}, {4, "isolate", ""}, {2, "crash_mysql", ""}}
-	stride := verifh.Pick(12, 1)
+	stride := verifh.Pick(15, 1)
 	idx := 0
 	for _, b := range bases {
 		c := simCfg{N: b.n, WaitCount: 1 + r.Intn(2), Failover: true, MasterFirst: r.Intn(2) == 0, FailDelay: 0, OffsetMs: r.Intn(2000),
@@ -937,13 +961,39 @@ func TestVerifC07(t *testing.T) {
 		if b.fault == "request" {
 			c.Target = ""
 		}
-		k := simRun(t, out, c, idx)
+		calls := simRun(t, out, c, idx)
+		k := len(calls)
 		if k == 0 {
 			t.Logf("base %+v: no request was taken up", b)
 			continue
 		}
+		// crash points: after every coordination write and every statement that changes a server (where a half-done
+		// procedure differs from the previous point), plus a stride through all the others
+		pick := map[int]bool{}
+		for i, w := range calls {
+			mut := strings.HasPrefix(w, "dcs:")
+			if strings.HasPrefix(w, "sql:") {
+				parts := strings.SplitN(w, ":", 3)
+				mut = len(parts) == 3 && fakes.IsMutating(parts[2])
+			}
+			if mut && (verifh.Thorough() || strings.HasPrefix(w, "dcs:") || r.Intn(3) == 0) {
+				pick[i+1] = true
+			}
+		}
 		for i := 1 + r.Intn(stride); i <= k+1; i += stride {
-			for _, succ := range []string{"same", "other"} {
+			pick[i] = true
+		}
+		var pts []int
+		for i := range pick {
+			pts = append(pts, i)
+		}
+		sort.Ints(pts)
+		for n, i := range pts {
+			succs := []string{"same", "other"}
+			if !verifh.Thorough() {
+				succs = succs[n%2 : n%2+1]
+			}
+			for _, succ := range succs {
 				c2 := c
 				c2.CrashAfter, c2.Successor = i, succ
 				idx++
